@@ -18,3 +18,4 @@ OUTSIDE = 'bp flavor (lazy registration, arena growth, slot reuse, signal blocki
 ASSUMPTIONS = ['as C01/C02']
 LEVEL_TEXT = 'Bounded model checking of register/unregister racing the two registry scans of synchronize_rcu with the C01/C02 oracles and registry well-formedness at quiescence.'
 LEVEL_NOTE = 'Trusted: as C01.'
+NA_REASON = 'check built but not yet validated on the unchanged tree within the time/memory caps; not claimed'
